@@ -108,9 +108,12 @@ PROPS['C15'] = {
              'octets (Model/JsonText.lean: member order, numbers, string escapes, prefix Display of C13, unpadded URL-safe Base64) and compared '
              'byte for byte with SlurmFile::to_string; a reference reader of that language inverts it for every tree (json_text_tree_roundtrip, by '
              'mutual induction over the nested tree) and for every well-formed file the text is read back - tree, typed leaves through '
-             'Prefix::from_str and the Base64 reader, field deserialisers - as the file (json_text_roundtrip, json_text_injective). Partial: '
-             'serde_json\'s *reader* (white space, other escapes and number forms) is not modelled - mutated trees are fed to from_str and compared '
-             'as trees.',
+             'Prefix::from_str and the Base64 reader, field deserialisers - as the file (json_text_roundtrip, json_text_injective). The '
+             'reader is modelled as well (Model/JsonRead.lean: white space, every escape of RFC 8259 with surrogate pairs, the number grammar, '
+             'no trailing commas, nothing after the value, the 27-character rule for key identifiers, the URL-safe alphabet) and compared with '
+             'SlurmFile::from_str on written (compact and pretty) and character-mutated texts; from_str_to_string: the reader model reads the '
+             'writer model\'s text of every well-formed file back as the file; readers_agree_on_written_text. Partial: the sequence form serde '
+             'derives for structs (a JSON array in place of an object) is accepted by the library and not by the model; such texts are not generated.',
     'note': 'The serde attribute semantics (default, skip_serializing_if, deny_unknown_fields - absent on BgpsecFilter -, null handling, '
             'duplicate fields, integer ranges) are mirrored by hand in Rpki/Model/Slurm.lean and validated differentially on valid and '
             'mutated files. Whether drop_payload consults all three lists, and ProviderAsns::MAX_COUNT, are regenerated from the source.',
@@ -121,8 +124,10 @@ PROPS['C15'] = {
             '(comments with quotes/control/non-ASCII) and 3 structure-aware mutations each (drop/duplicate/null/retype/unknown key/wrap); '
             'payloads and version choice per file; jtext: the text of every accepted file (valid and mutated trees, comments with every control '
             'character, quotes, backslashes, non-ASCII, U+2028) byte for byte against the model writer, and read back by the reference reader; '
-            'every drop decision is also asked of the same filters in a version-1 file and in a file made by SlurmFile::new.',
-    'trusted_base': ['serde/serde_json derive semantics mirrored by hand (validated differentially)', 'serde_json reader: exercised, not modelled'],
+            'every drop decision is also asked of the same filters in a version-1 file and in a file made by SlurmFile::new; jraw: ~250 hand-made texts '
+            '(escapes, lone and paired surrogates, number forms, white space, trailing commas and material, deep nesting in ignored members) and three '
+            'character-level mutants of the compact and of the pretty text of every generated file through from_str and from_reader.',
+    'trusted_base': ['serde/serde_json derive semantics and serde_json\'s reader and writer mirrored by hand from RFC 8259 and the crate\'s behaviour (validated differentially on ~40 000 texts per run, not verified)'],
     'assumptions': ['for the tree comparison (json op) Base64 and IP prefix text are canonicalised by the harness; the jtext op compares octets'],
 }
 
